@@ -166,3 +166,117 @@ def linear_kwargs(cfg):
   if cfg["norm"]:
     kw["normalization_order"] = cfg["norm"]
   return kw
+
+
+# --------------------------------------------------------------------------
+# Lattice shapes and constraint configurations (valid by construction).
+@st.composite
+def lattice_sizes(draw, max_rank=4, max_size=4, max_weights=256, min_rank=1):
+  kind = draw(st.sampled_from(["all2", "mixed", "mixed", "runs", "two_after"]))
+  rank = draw(st.integers(min_rank, max_rank))
+  if kind == "all2":
+    sizes = [2] * rank
+  elif kind == "runs":
+    a = draw(st.integers(2, max_size))
+    b = draw(st.integers(2, max_size))
+    cut = draw(st.integers(0, rank))
+    sizes = [a] * cut + [b] * (rank - cut)
+  elif kind == "two_after":
+    sizes = [draw(st.integers(3, max(3, max_size))) for _ in range(rank)]
+    sizes[-1] = 2
+  else:
+    sizes = [draw(st.integers(2, max_size)) for _ in range(rank)]
+  while int(np.prod(sizes)) > max_weights:
+    i = int(np.argmax(sizes))
+    if sizes[i] > 2:
+      sizes[i] -= 1
+    else:
+      sizes = sizes[:-1]
+  return sizes
+
+
+@st.composite
+def lattice_config(draw, sizes, approx=True, trusts=True, bounds=True,
+                   unimod=True, max_trusts=3):
+  """Valid Lattice constraint configuration for the given sizes."""
+  n = len(sizes)
+  mmode = draw(st.sampled_from(["all", "some", "some", "none"]))
+  mono = [1 if mmode == "all" else 0 if mmode == "none" else
+          draw(st.integers(0, 1)) for _ in range(n)]
+  cfg = {"sizes": list(sizes), "mono": mono, "unimod": [0] * n, "ew": [],
+         "tz": [], "mdom": [], "rdom": [], "jmono": [], "junimod": [],
+         "omin": None, "omax": None}
+  mono_dims = [i for i in range(n) if mono[i] == 1]
+  if trusts and mono_dims and n >= 2 and draw(st.integers(0, 2)) > 0:
+    # roles: a dimension is main, conditional or neither - never both.
+    mains = []
+    for d in mono_dims:
+      if draw(st.booleans()):
+        mains.append(d)
+    if not mains:
+      mains = [mono_dims[0]]
+    conds = [d for d in range(n) if d not in mains]
+    if conds:
+      pairs = {}
+      for _ in range(draw(st.integers(1, max_trusts))):
+        m = draw(st.sampled_from(mains))
+        c = draw(st.sampled_from(conds))
+        dr = pairs.get((m, c)) or draw(st.sampled_from([-1, 1]))
+        pairs[(m, c)] = dr
+        kind = draw(st.sampled_from(["ew", "tz", "both"]))
+        if kind in ("ew", "both"):
+          cfg["ew"].append([m, c, dr])
+        if kind in ("tz", "both"):
+          cfg["tz"].append([m, c, dr])
+  if unimod and approx:
+    for d in range(n):
+      if mono[d] == 0 and sizes[d] >= 3 and draw(st.integers(0, 3)) == 0:
+        cfg["unimod"][d] = draw(st.sampled_from([-1, 1]))
+  if approx and len(mono_dims) >= 2:
+    for fam in ("mdom", "rdom"):
+      if draw(st.integers(0, 3)) == 0:
+        sub = draw(dag_pairs(len(mono_dims), max_edges=2,
+                             allow_duplicates=False))
+        cfg[fam] = [[mono_dims[a], mono_dims[b]] for a, b in sub]
+  if approx and n >= 2 and draw(st.integers(0, 3)) == 0:
+    for _ in range(draw(st.integers(1, 2))):
+      a = draw(st.integers(0, n - 1))
+      b = draw(st.integers(0, n - 2))
+      b = b if b < a else b + 1
+      if [a, b] not in cfg["jmono"]:
+        cfg["jmono"].append([a, b])
+  if approx and unimod and draw(st.integers(0, 4)) == 0:
+    cand = [d for d in range(n) if mono[d] == 0 and sizes[d] >= 3]
+    if cand:
+      k = draw(st.integers(1, min(2, len(cand))))
+      dims = draw(st.permutations(cand))[:k]
+      cfg["junimod"].append([list(dims),
+                             draw(st.sampled_from(["valley", "peak"]))])
+  if bounds:
+    bm = draw(st.sampled_from(["none", "min", "max", "both", "both"]))
+    lo = f32(draw(st.sampled_from([-10.0, -1.0, 0.0, 0.5, 100.0])))
+    width = f32(draw(st.sampled_from([0.5, 1.0, 3.0, 1000.0])))
+    if bm in ("min", "both"):
+      cfg["omin"] = lo
+    if bm in ("max", "both"):
+      cfg["omax"] = f32(lo + width)
+  return cfg
+
+
+def lattice_kwargs(cfg, spell=None):
+  """kwargs for tfl Lattice / LatticeConstraints (canonical spelling)."""
+  kw = {"lattice_sizes": list(cfg["sizes"]),
+        "monotonicities": list(cfg["mono"])}
+  if any(cfg.get("unimod") or []):
+    kw["unimodalities"] = list(cfg["unimod"])
+  for key, name in (("ew", "edgeworth_trusts"), ("tz", "trapezoid_trusts"),
+                    ("mdom", "monotonic_dominances"),
+                    ("rdom", "range_dominances"),
+                    ("jmono", "joint_monotonicities")):
+    if cfg.get(key):
+      kw[name] = [tuple(t) for t in cfg[key]]
+  if cfg.get("junimod"):
+    kw["joint_unimodalities"] = [(tuple(d), s) for d, s in cfg["junimod"]]
+  kw["output_min"] = cfg.get("omin")
+  kw["output_max"] = cfg.get("omax")
+  return kw
